@@ -33,7 +33,7 @@ PreOf(e, u) ==
     [] e.pt = "unreg.end" -> Pre_UnregEnd(u)
     [] e.pt = "tr.reading" -> Pre_Reading(u)
     [] e.pt = "tr.read" -> Pre_Read(u)
-    [] e.pt = "proc.recv" -> Pre_Recv(u)
+    [] e.pt = "proc.recv" -> Pre_Recv(u, e.t)
     [] e.pt = "proc.step" -> Pre_Step(u)
     [] e.pt = "proc.exit" -> Pre_LoopExit(u)
     [] e.pt = "proc.dial" -> Pre_Dial(u)
@@ -61,7 +61,7 @@ EffOf(e, u) ==
     [] e.pt = "unreg.end" -> Eff_UnregEnd(u)
     [] e.pt = "tr.reading" -> Eff_Reading(u)
     [] e.pt = "tr.read" -> Eff_Read(u)
-    [] e.pt = "proc.recv" -> Eff_Recv(u)
+    [] e.pt = "proc.recv" -> Eff_Recv(u, e.t)
     [] e.pt = "proc.step" -> Eff_Step(u)
     [] e.pt = "proc.exit" -> Eff_LoopExit(u)
     [] e.pt = "proc.dial" -> Eff_Dial(u)
